@@ -118,7 +118,7 @@ def verify(props=None, functions=None, timeout_s=10.0, repo=None, procs=None):
     procs = procs or min(16, max(1, len(jobs)))
     ctx = mp.get_context("fork")
     from pyvc.solve import discharge_text, check_sat_text
-    with ctx.Pool(procs, maxtasksperchild=4) as pool:
+    with ctx.Pool(procs, maxtasksperchild=1) as pool:
         res = pool.map(verify_one, jobs, chunksize=1)
     # phase 2: every obligation is an independent query; discharge all of them 16-wide
     items = [(ri, oi) for ri, r in enumerate(res) for oi in range(len(r["obligations"]))]
